@@ -9,6 +9,18 @@ CFG = stl.Config(prop='C04', ns='hex', table=SP.HEX, widths={'quick': [64], 'tho
 
 def run(ctx):
     stl.run_property(ctx, CFG)
+    compositional(ctx, CFG)
+
+
+def compositional(ctx, cfg):
+    """theorems for ALL operands of the full-width flagship macros (fjverif/stl_compose.py); any failure in there is its own
+    broken obligation and never alters the enumerated results above"""
+    try:
+        from .. import stl_compose
+        stl_compose.run(ctx, cfg)
+    except Exception as e:  # noqa
+        ctx.coverage['obligations'] += 1
+        ctx.broken_tie(f'{ctx.prop} compositional theorems: stl_compose failed to run', f'{type(e).__name__}: {e}')
 
 
 def replay(ctx, path):
